@@ -214,7 +214,7 @@ func runC01(c *Ctx) {
 func siteText(c *Ctx, o *lincon.Oblig) string {
 	want := func(n ast.Node) bool {
 		switch n.(type) {
-		case *ast.IndexExpr, *ast.SliceExpr, *ast.CallExpr, *ast.TypeAssertExpr, *ast.BinaryExpr, *ast.RangeStmt:
+		case *ast.IndexExpr, *ast.SliceExpr, *ast.CallExpr, *ast.TypeAssertExpr, *ast.BinaryExpr, *ast.RangeStmt, *ast.ReturnStmt, *ast.AssignStmt:
 			return true
 		}
 		return false
@@ -225,8 +225,14 @@ func siteText(c *Ctx, o *lincon.Oblig) string {
 			if len(t) > 80 {
 				t = t[:80] + "..."
 			}
+			if strings.HasPrefix(o.Kind, "assert:") {
+				return o.Expr + " [" + t + "]"
+			}
 			return o.Kind + " " + t
 		}
+	}
+	if strings.HasPrefix(o.Kind, "assert:") {
+		return o.Expr
 	}
 	return o.Kind + " " + o.Expr
 }
